@@ -307,6 +307,15 @@ def mutation_cases(rng, tier):
             add(b','.join(parts[:j] + parts[j + 1:]))
             add(b','.join(parts[:j] + [parts[j]] + parts[j:]))
             add(b','.join(parts[:j] + [b''] + parts[j + 1:]))
+    # fragment-numbered shapes in the state where sequencing lets them through
+    for n, k, sid in ((2, 2, 1), (3, 2, 1), (3, 3, None), (9, 9, 7), (2, 2, None)):
+        for payload, fill, cs in ((b'15M', 0, None), (b'', 0, None), (b'15M', 6, None), (b'15M', 0, b'00'), (b'1,5', 0, None), (b'15M', b'', None), (b'*', 0, None)):
+            line = gen.sentence(payload, fill, n, k, sid, cs=cs)
+            variants = [line, line[:-3], line.replace(b',A,', b',,', 1), line.replace(b'!', b'$', 1), b'\\x\\' + line]
+            for v in variants:
+                out.append('H')
+                for j in range(1, k): out.append(L(0, 0, gen.sentence(b'1', 0, n, j, sid)))
+                out.append(L(0, 0, v)); out.append(L(0, 0, v))
     near = [b'', b'!', b'$', b'!AIVDM', b'!AIVDM,1,1,,A,15M,0', b'!AIVDM,1,1,,A,15M,0*', b'!AIVDM,1,1,,A,15M,0*G', b'!AIVDM,1,1,,A,,0*00',
             b'!AIVDM,1,1,,A,15M,6*00', b'!AIVDM,1,1,,A,15M,*00', b'!AIVDM,,1,,A,15M,0*00', b'!AIVDM,1,,,A,15M,0*00',
             b'!AIVDM,1,1,,A,15M,0*100', b'!AIVDM,1,1,,A,15M,0*0000000000', b'\\!AIVDM,1,1,,A,15M,0*00', b'\\\\!AIVDM,1,1,,A,15M,0*00',
@@ -330,6 +339,8 @@ def checksum_cases(rng, tier):
         out.append('H')
         for p in prior: out.append(L(0, 0, p))
         out.append(L(0, 1, line))
+        if (len(out) + len(line)) % 3 == 0:      # the same line again, straight away (a retransmission)
+            out.append(L(0, 1, line)); out.append(L(0, 0, line))
     pay2 = gen.armor(gen.message_bits(rng, 5))[0]
     f1, f2 = gen.fragment(rng, pay2, 2, 2, 7)
     priors = [[], [f1], [f1, f2]]
